@@ -860,3 +860,87 @@ def gen_tree(rng, ncmd: int) -> T.Dict[str, T.Any]:
             'allfiles': allfiles, 'dirs': dirs}
     return {'files': files, 'cmds': cmds, 'meta': meta, 'mode': 'single', 'prints': False,
             'cwd': 'root' if rng.random() < 0.25 else 'outside'}
+
+
+# ------------------------------------------------------------------------------------------------ layout-hostile family
+
+def hostile_snippets(kinds: T.Dict[str, str]) -> T.Dict[str, T.Optional[str]]:
+    """for every token kind whose text can span lines (harvested from the live lexer) a keyword argument whose value is
+    such a token — plus the other layout-hostile neighbours. None: no recipe (a new token kind: extend this table)."""
+    out: T.Dict[str, T.Optional[str]] = {}
+    for tid in kinds:
+        if tid == 'multiline_string':
+            out[tid] = "name_prefix: '''ml-a\nml-b'''"
+        elif tid == 'multiline_fstring':
+            out[tid] = "name_suffix: f'''v@n@\nz'''"
+        elif tid == 'string':
+            out[tid] = "link_language: 'r1\nr2'"
+        elif tid == 'fstring':
+            out[tid] = "win_subsystem: f'q@n@\nw'"
+        elif tid == 'eol_cont':
+            out[tid] = '\\\n'
+        else:
+            out[tid] = None
+    out['string-escape'] = "vs_module_defs: 'it\\'s \\\\ \\x41\\t'"
+    out['string-nonascii'] = "install_mode: 'é中😀'"
+    return out
+
+
+def hostile_cases(kinds: T.Dict[str, str]) -> T.List[T.Tuple[str, str, T.List[T.Dict[str, T.Any]]]]:
+    """(label, meson.build, commands): for each hostile neighbour, each position (on the physical line before the start
+    of the edited node / before its end / after its end) and each edit kind, one small project"""
+    snips = hostile_snippets(kinds)
+    head = "project('demo', default_options: ['warning_level=1'])\nn = 3\n"
+    edits_src = [
+        ('src_add', [{'type': 'target', 'target': 't0', 'operation': 'src_add', 'sources': ['new0.c']}]),
+        ('src_rm', [{'type': 'target', 'target': 't0', 'operation': 'src_rm', 'sources': ['s1.c']}]),
+        ('extra_add', [{'type': 'target', 'target': 't0', 'operation': 'extra_files_add', 'sources': ['newe0.txt']}]),
+        ('extra_rm', [{'type': 'target', 'target': 't0', 'operation': 'extra_files_rm', 'sources': ['e0.txt']}]),
+        ('kw_set', [{'type': 'kwargs', 'function': 'target', 'id': 't0', 'operation': 'set', 'kwargs': {'install': True}}]),
+        ('kw_delete', [{'type': 'kwargs', 'function': 'target', 'id': 't0', 'operation': 'delete', 'kwargs': {'install': None}}]),
+        ('kw_add', [{'type': 'kwargs', 'function': 'target', 'id': 't0', 'operation': 'add', 'kwargs': {'link_with': ['t9']}}]),
+        ('target_rm', [{'type': 'target', 'target': 't0', 'operation': 'target_rm'}]),
+        ('add_then_rm', [{'type': 'target', 'target': 't0', 'operation': 'src_add', 'sources': ['new0.c']},
+                         {'type': 'target', 'target': 't0', 'operation': 'src_rm', 'sources': ['new0.c']}]),
+    ]
+    edits_proj = [
+        ('defopt_set', [{'type': 'default_options', 'operation': 'set', 'options': {'warning_level': '3'}}]),
+        ('defopt_delete', [{'type': 'default_options', 'operation': 'delete', 'options': {'warning_level': None}}]),
+        ('proj_kw_set', [{'type': 'kwargs', 'function': 'project', 'id': '/', 'operation': 'set', 'kwargs': {'version': '2.0'}}]),
+        ('target_add', [{'type': 'target', 'target': 'nx', 'operation': 'target_add', 'sources': ['new0.c'], 'target_type': 'executable', 'subdir': ''}]),
+    ]
+    cases: T.List[T.Tuple[str, str, T.List[T.Dict[str, T.Any]]]] = []
+    tails = ["\nz = 1\n", "  # trailing é\nz = 1\n"]
+    for kind, snip in sorted(snips.items()):
+        if snip is None:
+            continue
+        for ti, tail in enumerate(tails):
+            if kind == 'eol_cont':
+                start = "t0 = %sexecutable('t0', %s  sources: ['s0.c', 's1.c'], extra_files: ['e0.txt'], install: false)" % (snip, snip)
+                end = "t0 = executable('t0', 's0.c', 's1.c', extra_files: ['e0.txt'], install: false %s)" % snip
+                proj = "project('demo', %s  default_options: ['warning_level=1'])\nn = 3\n" % snip
+            else:
+                # the edited sources / extra_files lists start on the line the hostile token ends on …
+                start = "t0 = executable('t0', %s, sources: ['s0.c', 's1.c'], extra_files: ['e0.txt'], install: false)" % snip
+                # … and the edited call ends on it
+                end = "t0 = executable('t0', 's0.c', 's1.c', extra_files: ['e0.txt'], install: false, %s)" % snip
+                lic = snip.split(': ', 1)[1]
+                proj = "project('demo', license: [%s], default_options: ['warning_level=1'])\nn = 3\n" % lic
+            for ename, cmds in edits_src:
+                if ti == 1 and ename not in ('src_add', 'kw_set', 'target_rm'):
+                    continue
+                cases.append((f'{kind}:before-start:{ename}', head + start + tail, cmds))
+                cases.append((f'{kind}:before-end:{ename}', head + end + tail, cmds))
+            for ename, cmds in edits_proj:
+                if ti == 1:
+                    continue
+                cases.append((f'{kind}:project:{ename}', proj + "t0 = executable('t0', 's0.c')\n", cmds))
+    # tabs instead of blanks everywhere around the edited node
+    tab = "t0\t=\texecutable(\t't0',\tsources:\t['s0.c',\t's1.c'],\textra_files:\t['e0.txt'],\tinstall:\tfalse\t)\t# c\nz\t=\t1\n"
+    for ename, cmds in edits_src:
+        cases.append((f'whitespace-tab:{ename}', head + tab, cmds))
+    # the edited statement is the last one and the file has no newline at its end
+    for ename, cmds in edits_src + edits_proj:
+        cases.append((f'eof-without-newline:{ename}',
+                      head + "t0 = executable('t0', 's0.c', 's1.c', extra_files: ['e0.txt'], install: false)", cmds))
+    return cases
